@@ -4,6 +4,9 @@ import (
 	"encoding/json"
 	"fmt"
 	"os"
+	"time"
+
+	"github.com/xjslang/xjs/ast"
 
 	"xmc/core"
 	"xmc/gen"
@@ -19,11 +22,12 @@ import (
 var c03Cfgs = []Cfg{{}, {Pretty: true, Indent: -2, Semi: -1}, {Pretty: true, Indent: 2, Semi: 0}}
 
 type c03Payload struct {
-	Chain string `json:"chain"`
-	Place int    `json:"place"`
-	Depth int    `json:"depth"`
-	Full  bool   `json:"full"`
-	Cfg   int    `json:"cfg"`
+	Edited bool   `json:"edited,omitempty"` // the edited-tree family (re-run as a whole on replay)
+	Chain  string `json:"chain"`
+	Place  int    `json:"place"`
+	Depth  int    `json:"depth"`
+	Full   bool   `json:"full"`
+	Cfg    int    `json:"cfg"`
 }
 
 func c03Place(e *gen.Node, place int) []*gen.Node {
@@ -63,6 +67,7 @@ func c03Check(prog []*gen.Node, cfg Cfg) (kind, detail, code string) {
 }
 
 func c03Run(c *core.Ctx) {
+	c03Edited(c)
 	full := c.Thorough()
 	holes := gen.Holes(full)
 	leaves := gen.Leaves()
@@ -115,6 +120,70 @@ func c03Run(c *core.Ctx) {
 	}
 }
 
+// c03Edited: a tree that has been printed and is then edited in place (the operator of a binary node
+// replaced) prints like a freshly built tree with that operator. Nodes may not remember what they were.
+func c03Edited(c *core.Ctx) {
+	for _, op1 := range gen.BinOps {
+		for _, op2 := range gen.BinOps {
+			for nest := 0; nest < 2; nest++ {
+				if !c.Next() || c.Tick() {
+					continue
+				}
+				mk := func(root, inner string) *gen.Node {
+					if nest == 0 {
+						return gen.Bi(root, gen.Bi(inner, gen.I("a"), gen.I("b")), gen.I("c"))
+					}
+					return gen.Bi(root, gen.I("a"), gen.Bi(inner, gen.I("b"), gen.I("c")))
+				}
+				for _, cfg := range c03Cfgs[:2] {
+					x := toXProgram([]*gen.Node{gen.Ex(mk(op1, op2))})
+					if co := compileCfg(x, cfg); co.Panic != "" {
+						continue
+					}
+					root := x.Statements[0].(*ast.ExpressionStatement).Expression.(*ast.BinaryExpression)
+					var inner *ast.BinaryExpression
+					if nest == 0 {
+						inner = root.Left.(*ast.BinaryExpression)
+					} else {
+						inner = root.Right.(*ast.BinaryExpression)
+					}
+					for _, op3 := range gen.BinOps {
+						for which := 0; which < 2; which++ {
+							r, in := op1, op2
+							target := root
+							if which == 0 {
+								r = op3
+							} else {
+								in = op3
+								target = inner
+							}
+							target.Token = tk(punctType[op3], op3)
+							target.Operator = op3
+							c.Inc("print_parse_roundtrips")
+							c.Inc("edited_tree_prints")
+							got := compileCfg(x, cfg)
+							want := compileCfg(toXProgram([]*gen.Node{gen.Ex(mk(r, in))}), cfg)
+							if got.Code != want.Code && c.ShrinkOK("edited") {
+								pl, _ := json.Marshal(c03Payload{Edited: true})
+								c.Violate(core.Violation{Kind: "edited-tree-prints-differently", Config: cfg.String(), Payload: pl,
+									Case:   fmt.Sprintf("print %s, set the %s operator to %s, print again", gen.Shape(mk(op1, op2)), []string{"root", "inner"}[which], op3),
+									Detail: fmt.Sprintf("edited tree prints %q, a freshly built tree of the same shape prints %q", got.Code, want.Code), Size: 5})
+							}
+							// restore
+							if which == 0 {
+								target.Token, target.Operator = tk(punctType[op1], op1), op1
+							} else {
+								target.Token, target.Operator = tk(punctType[op2], op2), op2
+							}
+							_ = compileCfg(x, cfg)
+						}
+					}
+				}
+			}
+		}
+	}
+}
+
 func countByte(s string, b byte) int {
 	n := 0
 	for i := 0; i < len(s); i++ {
@@ -146,6 +215,11 @@ func c03Replay(pl json.RawMessage) (string, []core.Violation) {
 	json.Unmarshal(pl, &p)
 	var out string
 	var vs []core.Violation
+	if p.Edited {
+		cx := core.NewCtx("C03", "quick", 0, 0, 1, time.Now().Add(10*time.Minute))
+		c03Edited(cx)
+		return "edited-tree family re-run", cx.Violations()
+	}
 	gen.Chains(gen.Holes(p.Full), gen.Leaves(), p.Depth, true, func(e *gen.Node, name string) {
 		if name != p.Chain {
 			return
